@@ -44,14 +44,17 @@ ELabels == << <<"N","O">>, <<"Y","E","S">> >>
 BaseOf(k) == CASE k \in {"short", "short2"} -> KShort [] k \in {"int", "int2", "int1"} -> CInt [] k \in {"long", "long2"} -> KLong
                [] k \in {"float", "float2"} -> KFloat [] k \in {"double", "double2", "double1"} -> KDouble
                [] k \in {"char3", "char23", "char13"} -> KwChar [] k = "enum" -> EName
-ColOfKind(k, j) ==
-  LET nm == CASE j = 1 -> <<"a","b","_","x">> [] j = 2 -> <<"a","b">> [] OTHER -> <<"a">> IN   \* each later name is a prefix of the earlier ones
+ColOfKindN(k, nm) ==
   CASE k \in {"short", "int", "long", "float", "double", "enum"} -> Col(nm, BaseOf(k), 0, NotChar)
     [] k \in {"short2", "int2", "long2", "float2", "double2"} -> Col(nm, BaseOf(k), 2, NotChar)
     [] k \in {"int1", "double1"} -> Col(nm, BaseOf(k), 1, NotChar)
     [] k = "char3" -> Col(nm, KwChar, 0, 3)
     [] k = "char23" -> Col(nm, KwChar, 2, 3)
     [] k = "char13" -> Col(nm, KwChar, 1, 3)
+ColOfKind(k, j) ==   \* each later name is a prefix of the earlier ones
+  ColOfKindN(k, CASE j = 1 -> <<"a","b","_","x">> [] j = 2 -> <<"a","b">> [] OTHER -> <<"a">>)
+(* column names that differ only in letter case are different columns (names are case-sensitive) *)
+CaseName(j) == CASE j = 1 -> <<"r","a">> [] j = 2 -> <<"R","A">> [] OTHER -> <<"R","a">>
 IntVals == << <<"7">>, <<"-","1">> >>
 FltVals == << <<"1",".","5">>, <<"-","2",".","2","5">> >>
 StrVals == << <<"a","b">>, <<>> >>
@@ -70,6 +73,12 @@ TypesDoc(ks, nrows) ==
   [pairs |-> <<>>,
    enums |-> IF \E j \in 1..Len(ks) : ks[j] = "enum" THEN <<[name |-> EName, labels |-> ELabels]>> ELSE <<>>,
    structs |-> <<[name |-> <<"T","Y">>, cols |-> [j \in 1..Len(ks) |-> ColOfKind(ks[j], j)]]>>,
+   rows |-> [r \in 1..nrows |-> [t |-> 1, cells |-> [j \in 1..Len(ks) |-> CellOfKind(ks[j], r)]]]]
+
+CaseColsDoc(ks, nrows) ==
+  [pairs |-> <<>>,
+   enums |-> IF \E j \in 1..Len(ks) : ks[j] = "enum" THEN <<[name |-> EName, labels |-> ELabels]>> ELSE <<>>,
+   structs |-> <<[name |-> <<"T","Y">>, cols |-> [j \in 1..Len(ks) |-> ColOfKindN(ks[j], CaseName(j))]]>>,
    rows |-> [r \in 1..nrows |-> [t |-> 1, cells |-> [j \in 1..Len(ks) |-> CellOfKind(ks[j], r)]]]]
 
 (* ---- tables: 1..3 tables whose names contain one another / equal a column name elsewhere ---- *)
@@ -135,6 +144,8 @@ Init ==
         \/ \E e \in CuratedElems : Gen("curated", WideDoc(<<"z">>, <<>>, e), TRUE)
   \/ /\ "types" \in Families
      /\ \E n \in 1..MaxCols : \E ks \in [1..n -> Kinds12] : \E nr \in 0..2 : Gen("types", TypesDoc(ks, nr), TRUE)
+  \/ /\ "types" \in Families
+     /\ \E ks \in [1..2 -> Kinds12] : ks[1] # ks[2] /\ \E nr \in 1..2 : Gen("casecols", CaseColsDoc(ks, nr), TRUE)
   \/ /\ "tables" \in Families
      /\ \E ns \in NameSets : \E nr \in 0..2 : Gen("tables", TablesDoc(ns, nr), TRUE)
   \/ /\ "tables" \in Families
